@@ -46,7 +46,8 @@ DEFAULT_RLIMIT = 150
 # make a failed proof inconclusive
 STRONG_SPEC = {"max", "min", "saturating_sub", "saturating_add", "checked_sub", "checked_add", "wrapping_sub", "wrapping_add",
                "len", "is_empty", "push", "extend_from_slice", "contains_key", "contains", "insert", "is_some", "is_none",
-               "is_ok", "is_err", "unwrap_or", "Some", "Ok", "Err", "None", "if", "match", "let", "return", "for", "while"}
+               "is_ok", "is_err", "unwrap_or", "Some", "Ok", "Err", "None", "if", "match", "let", "return", "for", "while",
+               "usize::from", "u64::from", "u32::from", "u16::from", "u128::from"}
 
 OFFLINE_ENV = {"CARGO_NET_OFFLINE": "true"}
 
@@ -702,8 +703,14 @@ def main():
                                 "functions": u.get("functions", []), "bounded": False})
                 continue
             futs.append(ex.submit(run_verus_unit, u, repo))
-        # kani
+        # kani (one check at a time per build directory: concurrent runs would overwrite each other's artefacts)
         scratch = scratch_nf = None
+        klock = None
+        if kani_units or kani_nf_units:
+            import fcntl
+            os.makedirs(BUILD, exist_ok=True)
+            klock = open(os.path.join(BUILD, "kani.lock"), "w")
+            fcntl.flock(klock, fcntl.LOCK_EX)
         try:
             kani_futs = []
             if kani_units:
@@ -764,6 +771,8 @@ def main():
             for d in (scratch, scratch_nf):
                 if d:
                     shutil.rmtree(d, ignore_errors=True)
+            if klock:
+                klock.close()
 
     return finish(prop, tier, seed, units, results, ledger, findings, fixed, pmeta, args, t0)
 
